@@ -165,7 +165,10 @@ def fetch (h : H) (s : Nat) : St × H :=
 def step (h : H) (s : Nat) (acc : List Nat) : Step :=
   if h.rd.off = h.rd.outOff ∧ h.rd.blk = [] then
     match fetch h s with
-    | (.eof, h2) => .done (.ok acc) h2
+    | (.eof, h2) =>
+      -- the end offset reported with ARCHIVE_EOF lies beyond what was delivered: a trailing
+      -- hole, filled below like any other
+      if h2.rd.off ≤ h2.rd.outOff then .done (.ok acc) h2 else padCopy h2 s acc
     | (.err e, h2) => .done (.err e acc) h2
     | (.ok, h2) => padCopy h2 s acc
   else padCopy h s acc
@@ -219,13 +222,35 @@ theorem fetch_ok {h : H} {s : Nat} {h2 : H} (e : fetch h s = (.ok, h2)) :
   subst e2
   simpa using this
 
+theorem dataBlock_evs_le (h : H) : (dataBlock h).2.2.evs.length ≤ h.evs.length := by
+  unfold dataBlock
+  split
+  · simp
+  · split <;> simp_all
+
+theorem fetch_evs_le {h : H} {s : Nat} {st : St} {h2 : H} (e : fetch h s = (st, h2)) :
+    h2.evs.length ≤ h.evs.length := by
+  unfold fetch at e
+  simp only [] at e
+  injection e with e1 e2
+  subst e2
+  exact dataBlock_evs_le { h with rd := { h.rd with posix := true, requested := s } }
+
 theorem step_more {h : H} {s : Nat} {acc : List Nat} {h' : H} {s' : Nat} {acc' : List Nat}
     (hs : 0 < s) (e : step h s acc = .more h' s' acc') :
     h'.evs.length < h.evs.length ∨ (h'.evs.length = h.evs.length ∧ s' < s) := by
   unfold step at e
   split at e
   · split at e
-    · cases e
+    · rename_i h2 hf
+      split at e
+      · cases e
+      · rename_i hlt
+        have := padCopy_more e
+        have h3 := fetch_evs_le hf
+        have h4 : s' < s := this.2.2 (fun x => hlt (by omega)) hs
+        rw [this.1]
+        omega
     · cases e
     · rename_i h2 hf
       left
